@@ -253,6 +253,8 @@ fn arb_label() -> BoxedStrategy<String> {
 		6 => proptest::sample::select(vec!["a", "b", "example", "com", "localhost", "web3", "site", "evil", "xn--bcher-kva"]).prop_map(|s| s.to_string()),
 		3 => Just("*".to_string()),
 		1 => "[a-z0-9-]{1,6}",
+		// (labels with capital letters: matching is by the text as configured)
+		2 => proptest::sample::select(vec!["Example", "COM", "Node-1", "A", "LocalHost"]).prop_map(|s| s.to_string()),
 	]
 	.boxed()
 }
@@ -261,7 +263,7 @@ fn arb_entry() -> BoxedStrategy<EntrySpec> {
 	prop_oneof![
 		8 => (proptest::collection::vec(arb_label(), 1..4), 0u8..9, prop_oneof![4 => Just(0u8), 1 => 1u8..5]).prop_map(|(labels, port, scheme)| EntrySpec { labels, port, scheme }),
 		1 => (0u8..9).prop_map(|port| EntrySpec { labels: vec!["127".into(), "0".into(), "0".into(), "1".into()], port, scheme: 0 }),
-		1 => (0u8..9).prop_map(|port| EntrySpec { labels: vec!["[::1]".into()], port, scheme: 0 }),
+		1 => (0u8..9, any::<bool>()).prop_map(|(port, caps)| EntrySpec { labels: vec![if caps { "[FE80::A]".into() } else { "[::1]".into() }], port, scheme: 0 }),
 	]
 	.boxed()
 }
@@ -332,7 +334,7 @@ pub fn host_text(h: &HostSpec, entries: &[EntrySpec]) -> Option<Vec<u8>> {
 			let s = match mutation % 16 {
 				0 => format!("{scheme}{arg}.{host}{port}"),
 				1 => format!("{scheme}{host}.{arg}{port}"),
-				2 => format!("{scheme}{}{port}", host.to_uppercase()),
+				2 => format!("{scheme}{}{port}", if host.chars().any(|c| c.is_ascii_uppercase()) { host.to_lowercase() } else { host.to_uppercase() }),
 				3 => format!("{scheme}{host}.{port}"),
 				4 => format!("{scheme}{host}:{arg}"),
 				5 => format!("{scheme}{host}:+80"),
